@@ -16,4 +16,8 @@ let () =
       let f = if str mode = "kill" then Output.crash_kill else Output.crash_exn in
       vfs (f (nat_of_int (int_of k)) ops s0)
     | _ -> failwith "arity");
+  register "filesync_ops" (function [pb; a; b] ->
+      L (List.map (fun o -> let (k, (x, y)) = Output.op_render o in L [S k; S x; S y]) (Output.filesync_ops (str pb) (str a) (str b)))
+    | _ -> failwith "arity");
+  register "filesync_jobs_ok" (function [pb; a; b] -> vbool (Output.jobs_okb (Output.filesync_jobs (str pb) (str a) (str b))) | _ -> failwith "arity");
   register "jobs_ok" (function [outdir; m] -> vbool (Output.jobs_okb (Output.createoutput_jobs (str outdir) (cmodel m))) | _ -> failwith "arity")
